@@ -1019,6 +1019,74 @@ def fam_opt(tier):
     return g
 
 
+KIND_BRACE = {"normal": "", "atomic": "@", "compound": "$", "silent": "_", "nonatomic": "!"}
+
+
+def _box_text(kinds, edges):
+    """grammar of a BoxGraph record: rule i starts with a literal (never left-recursive) and mentions rule j as edges[i][j] says"""
+    lines = []
+    for i, k in enumerate(kinds):
+        parts = ['"%d"' % (i + 1)]
+        for j, e in enumerate(edges[i]):
+            r = "r%d" % (j + 1)
+            piece = {"none": None, "val": r, "opt": r + "?", "alt": '(%s | "z")' % r, "pos": "&" + r, "neg": "!" + r, "rep": r + "*", "plus": r + "+", "push": "PUSH(%s)" % r}[e]
+            if piece:
+                parts.append(piece)
+        lines.append("r%d = %s{ %s }" % (i + 1, KIND_BRACE[k], " ~ ".join(parts)))
+    return "\n".join(lines)
+
+
+def boxgraph_pass(ctx, tier):
+    """C20 'recursive grammars still compile when boxing is reduced', on every grammar shape in the bound: BoxGraph.tla enumerates
+    (rule kinds x how rule i mentions rule j), the generator is run as a library with box_only_if_needed on both AST paths, and TLC
+    evaluates Finite (no by-value cycle through unboxed rules) on the boxed flags it emitted."""
+    d = peg.tmpdir("c20")
+    runs = [("2", "4", "0")] if tier == "quick" else [("2", "4", "1"), ("3", "3", "0")]
+    famgen.sync_workspace()
+    p, genbin = build_bin("genrun")
+    if p.returncode != 0:
+        raise ToolError("genrun build failed:\n" + (p.stdout or "")[-3000:])
+    total = 0
+    for n, maxe, rich in runs:
+        env = {"VERIF_N": n, "VERIF_MAXE": maxe, "VERIF_RICH": rich, "VERIF_MODE": "gen", "VERIF_OBS": ""}
+        recs = tlc_text(ctx, "BoxGraph.tla", "BoxGraph.cfg", "c20", env)
+        jobs = []
+        for i, r in enumerate(recs):
+            text = _box_text(r["kinds"], r["edges"])
+            for a, opts in (("opt", {"box_only_if_needed": True}), ("src", {"box_only_if_needed": True, "pest_optimizer": False})):
+                jobs.append({"idx": len(jobs), "text": text, "opts": opts, "want": "boxed", "_r": i, "_ast": a})
+        obs = run_text(genbin, [{k: v for k, v in j.items() if not k.startswith("_")} for j in jobs], procs=12)
+        obsp = os.path.join(d, "boxobs_%s.ndjson" % n)
+        order = []
+        with open(obsp, "w") as fo:
+            for j in jobs:
+                o = obs.get(j["idx"])
+                r = recs[j["_r"]]
+                ctx.cov["evaluations"] += 1
+                if any(r["need"].values()):
+                    ctx.cov["distinct_nontrivial"] += 1
+                if o is None or o.get("panic") or not isinstance(o.get("boxed"), dict) or any(("r%d" % (k + 1)) not in o["boxed"] for k in range(len(r["kinds"]))):
+                    ctx.violation("generator gave no boxed flags for a pest-valid grammar (options %s): %s" % (j["opts"], j["text"].replace("\n", " ; ")),
+                                  {"kind": "generator", "grammar": j["text"], "opts": j["opts"], "observed": o})
+                    continue
+                boxed = [bool(o["boxed"]["r%d" % (k + 1)] is True) for k in range(len(r["kinds"]))]
+                fo.write(json.dumps({"kinds": r["kinds"], "edges": r["edges"], "ast": j["_ast"], "boxed": boxed}) + "\n")
+                order.append((j, boxed))
+        env2 = dict(env, VERIF_MODE="val", VERIF_OBS=obsp)
+        _, st = peg.run_tlc("", "c20", cfg="BoxGraph.cfg", module="BoxGraph.tla", extra_env=env2, workers=1)
+        if not st["ok"]:
+            raise ToolError("TLC did not complete cleanly on BoxGraph (val):\n" + st.get("tail", "")[-3000:])
+        ctx.add_stats(st)
+        bad = [int(x) for x in re.findall(r'<<"BAD", (\d+)>>', open(st["out"]).read())]
+        for l in sorted(set(bad)):
+            j, boxed = order[l - 1]
+            ctx.violation("box_only_if_needed (%s AST) leaves a by-value cycle of unboxed rules: boxed = %s for %s" % (j["_ast"], boxed, j["text"].replace("\n", " ; ")),
+                          {"kind": "generator", "grammar": j["text"], "opts": j["opts"], "boxed": boxed, "spec": "BoxGraph.tla: Finite"})
+        ctx.cov["traces_validated_against_impl"] += len(order)
+        total += len(order)
+    ctx.notes["boxgraph_records_validated"] = total
+
+
 def check_C20(tier, seed):
     import props
     ctx = Ctx("C20", tier, seed)
@@ -1087,4 +1155,5 @@ def check_C20(tier, seed):
             ctx.violation("generation is not deterministic for %s with %s: %s" % (j["gid"], j["opts"], vals), {"kind": "generator", "grammar": j["text"], "opts": j["opts"], "observed": vals})
     ctx.notes["generator_processes"] = N
     ctx.notes["option_sets"] = [sorted(s) for s in on_sets + off_sets]
-    return ctx.finish(rule="family opt (mutually recursive grammars, arithmetic with WHITESPACE, counted repetitions + the lister shape, a JSON-like grammar, recursive stack grammar, comments) compiled under each option set (alone and together; pest_optimizer = false with and without reduced boxing); every behaviour of the machine is replayed on every variant: verdict, offset and pair tree must equal the model on the optimized AST (optimizer-off mismatches are accepted only when the machine on the SOURCE AST reproduces them exactly - known finding); the generator is run as a library in N separate processes (different environments) and the emitted token streams must be identical; compile success of the recursive grammars with reduced boxing is part of the harness build")
+    boxgraph_pass(ctx, tier)
+    return ctx.finish(rule="BoxGraph.tla: every grammar shape of 2 rules (4 kinds x 6 ways of mentioning, <= 4 mentions; thorough: 5 kinds x 8 ways, and 3 rules with <= 3 mentions) is generated with box_only_if_needed on both AST paths and TLC evaluates Finite (no by-value cycle through unboxed rules; by value = plain mention, ?, choice, &, PUSH, first copy of e+ on the optimized path) on the boxed flags the generator emitted. Family opt (mutually recursive grammars, arithmetic with WHITESPACE, counted repetitions + the lister shape, a JSON-like grammar, recursive stack grammar, comments) compiled under each option set (alone and together; pest_optimizer = false with and without reduced boxing); every behaviour of the machine is replayed on every variant: verdict, offset and pair tree must equal the model on the optimized AST (optimizer-off mismatches are accepted only when the machine on the SOURCE AST reproduces them exactly - known finding); the generator is run as a library in N separate processes (different environments) and the emitted token streams must be identical; compile success of the recursive grammars with reduced boxing is part of the harness build")
